@@ -10,6 +10,7 @@ pub mod opclass_endpoint;
 pub mod opclass_recovery;
 pub mod opclass_wire;
 pub mod opclass_keyupd;
+pub mod panicid;
 pub mod scen_dgram;
 pub mod scen_gate;
 pub mod scen_multi;
@@ -21,6 +22,7 @@ pub mod txobs;
 pub mod scen_zrtt2;
 pub mod scen_reset;
 pub mod ledger;
+pub mod lostkeys;
 pub mod addrval;
 pub mod scen_conn;
 pub mod scen_determ;
@@ -138,6 +140,8 @@ pub struct Runner {
     pub tainted_cases: u64,
     /// first panic of a case that was not judged (out-of-contract op, or after one)
     pub unjudged_panics: Vec<String>,
+    /// identity (`<source file>:<message>`, panicid.rs) of the panic that made the last op answer `panic`
+    pub last_panic: String,
 }
 
 impl Default for Runner {
@@ -148,6 +152,8 @@ impl Default for Runner {
 
 impl Runner {
     pub fn new() -> Self {
+        // a recorded panic finding is identified by WHICH panic it is (source file + message), see panicid.rs
+        panicid::install();
         Self {
             ex: quinn_proto::verif::Exec::new(),
             ops: String::new(),
@@ -169,6 +175,7 @@ impl Runner {
             class_hist: BTreeMap::new(),
             tainted_cases: 0,
             unjudged_panics: Vec::new(),
+            last_panic: String::new(),
         }
     }
 
@@ -207,6 +214,7 @@ impl Runner {
 
     /// Execute `line`; the recorded request is `line` followed by `observe(response)` if given.
     fn raw_observed(&mut self, line: &str, observe: Option<&dyn Fn(&str) -> String>) -> String {
+        panicid::clear();
         let resp = match catch_unwind(AssertUnwindSafe(|| self.ex.exec(line))) {
             Ok(r) => r,
             Err(_) => {
@@ -215,6 +223,10 @@ impl Runner {
                 "panic".to_string()
             }
         };
+        if resp == "panic" {
+            // (executors that catch the panic themselves answer `panic` too: the hook ran where it was raised)
+            self.last_panic = panicid::take();
+        }
         self.ops.push_str(line);
         if let Some(f) = observe {
             self.ops.push(' ');
@@ -278,18 +290,25 @@ impl Runner {
         *self.class_hist.entry(format!("{comp} {kind}:{class:?}")).or_default() += 1;
         if resp == "panic" {
             if !self.class.tainted && !self.class.panicked {
+                // WHICH panic: source file + line-independent message (+ configuration class where the component's
+                // tracker names one): a recorded finding must not mask another panic of the same op (panicid.rs)
+                let mut id = self.last_panic.clone();
+                if let Some(c) = self.class.config_class(line) {
+                    id.push('+');
+                    id.push_str(&c);
+                }
                 match class {
                     Class::Peer => {
                         let ops = self.cur_ops.join(" ; ");
                         self.oracle_fail(&format!(
-                            "key=C03-panic-on-peer-input.{comp}.{kind} component={comp} op={kind} line=[{line}] replay=[{ops}]"
+                            "key=C03-panic-on-peer-input.{comp}.{kind}@{id} component={comp} op={kind} line=[{line}] replay=[{ops}]"
                         ));
                     }
                     Class::Local => {
                         let p = opclass::own_property(&comp);
                         let ops = self.cur_ops.join(" ; ");
                         self.oracle_fail(&format!(
-                            "key={p}-panic-on-api-call.{comp}.{kind} component={comp} op={kind} line=[{line}] replay=[{ops}]"
+                            "key={p}-panic-on-api-call.{comp}.{kind}@{id} component={comp} op={kind} line=[{line}] replay=[{ops}]"
                         ));
                     }
                     Class::Contract | Class::Probe => {}
